@@ -120,6 +120,34 @@ fn history(seed: u64, st: &mut Stats, max_users: usize) {
         st.inconclusive.push("fixture update failed".into());
         return;
     }
+    // two thirds of the histories run at a higher tracing level: the API creates level 1 only (two
+    // tracers); a master key with more tracers is what `MasterSecretKey::deserialize` accepts when
+    // (t, t·G) pairs are appended to the tracer list. No key has been issued yet, so the relation
+    // holds vacuously for the crafted key.
+    let extra = [0usize, 1, 3][rng.below(3)];
+    if extra > 0 {
+        let crafted = ser(&msk).ok().and_then(|b| WMsk::parse(&b).ok()).and_then(|mut w| {
+            for _ in 0..extra {
+                let mut t = rng.bytes(32);
+                // below 2^248 in either byte order: canonical for both curves
+                t[0] = 0;
+                t[31] = 0;
+                t[15] |= 1;
+                let p = arith::base_mul(&t)?;
+                w.tracers.push((t, p));
+            }
+            de::<MasterSecretKey>(&w.write()).ok()
+        });
+        match crafted {
+            Some(m) => msk = m,
+            None => {
+                st.inconclusive.push("cannot build a master key with more tracers".into());
+                return;
+            }
+        }
+    }
+    st.bump(&format!("histories_with_{}_tracers", 2 + extra));
+    st.shapes.insert(fnv(format!("tracers-{}", 2 + extra).as_bytes()));
     let pols = ["D::A", "D::B && H::L", "H::T", "*", "D::A || D::B", "H::L && D::A"];
     let mut h = H { cc, msk, usks: vec![], issued: 0 };
     let n_ops = rng.range(10, 10 + 2 * max_users);
